@@ -10,18 +10,19 @@ import (
 	"verifharness/internal/h"
 )
 
-// C12: defclass histories (forward references, redefinition). Stimulus:
+// C12: defclass histories (forward references, redefinition, instances made in between). Stimulus:
 //
-//	{"id":3,"ops":[{"c":"ca","supers":["cb"],"slot":2}],"classes":["ca"]}
+//	{"id":3,"ops":[{"op":"defclass","c":"ca","supers":["cb"],"cfg":"sf"},{"op":"make","c":"ca"}],"classes":["ca"]}
 //
-// One event per stimulus with, per class: precedence (or "notready"), the slot of a
-// fresh instance made without and with the initarg.
+// One event per stimulus with, per class: precedence (or not ready), the slots of a fresh instance made
+// without and with the initarg :s 77, the reader, class-of and typep against every other class.
 func init() { drivers["c12"] = c12 }
 
 type c12Op struct {
+	Op     string   `json:"op"`
 	C      string   `json:"c"`
 	Supers []string `json:"supers"`
-	Slot   int      `json:"slot"`
+	Cfg    string   `json:"cfg"`
 }
 
 type c12Stim struct {
@@ -30,7 +31,7 @@ type c12Stim struct {
 	Classes []string `json:"classes"`
 }
 
-var c12Idx = map[string]int{"ca": 1, "cb": 2, "cc": 3, "cd": 4, "ce": 5}
+var c12Idx = map[string]int{"ca": 1, "cb": 2, "cc": 3, "cd": 4, "ce": 5, "cf": 6}
 
 func c12(args []string) {
 	out := h.NewOut()
@@ -43,25 +44,38 @@ func c12(args []string) {
 		}
 		real := func(c string) string { return fmt.Sprintf("%s-%d", c, st.ID) }
 		strip := strings.NewReplacer(fmt.Sprintf("-%d", st.ID), "")
+		reader := fmt.Sprintf("s-of-%d", st.ID)
 		defs := []string{}
 		for _, op := range st.Ops {
+			if op.Op == "make" {
+				o := h.Eval(s, fmt.Sprintf("(make-instance '%s)", real(op.C)))
+				defs = append(defs, o.Class)
+				continue
+			}
 			sup := make([]string, len(op.Supers))
 			for i, x := range op.Supers {
 				sup[i] = real(x)
 			}
-			slot := ""
-			switch op.Slot {
-			case 1:
-				slot = "(s :initarg :s)"
-			case 2:
-				slot = fmt.Sprintf("(s :initarg :s :initform %d)", c12Idx[op.C])
+			n := c12Idx[op.C]
+			slots := ""
+			switch op.Cfg {
+			case "s":
+				slots = fmt.Sprintf("(s :initarg :s :reader %s)", reader)
+			case "sf":
+				slots = fmt.Sprintf("(s :initarg :s :initform %d :reader %s)", n, reader)
+			case "u":
+				slots = "(u :initarg :u)"
+			case "us":
+				slots = "(u :initarg :s)"
+			case "sfuf":
+				slots = fmt.Sprintf("(s :initarg :s :initform %d :reader %s) (u :initarg :u :initform %d)", n, reader, 10+n)
 			}
-			o := h.Eval(s, fmt.Sprintf("(defclass %s (%s) (%s))", real(op.C), strings.Join(sup, " "), slot))
+			o := h.Eval(s, fmt.Sprintf("(defclass %s (%s) (%s))", real(op.C), strings.Join(sup, " "), slots))
 			defs = append(defs, o.Class)
 		}
 		obs := h.V{}
 		for _, c := range st.Classes {
-			cell := h.V{"prec": []string{}, "ready": false, "slot": "", "slotarg": ""}
+			cell := h.V{"prec": []string{}, "ready": false}
 			if po := h.Eval(s, fmt.Sprintf("(class-precedence '%s)", real(c))); po.OK() {
 				if l, ok := po.Val.(slip.List); ok && len(l) > 0 {
 					prec := []string{}
@@ -75,15 +89,35 @@ func c12(args []string) {
 					cell["prec"], cell["ready"] = prec, true
 				}
 			}
-			slotOf := func(initargs string) string {
-				o := h.Eval(s, fmt.Sprintf("(let ((i (make-instance '%s%s))) (if (slot-boundp i 's) (slot-value i 's) 'unbound))", real(c), initargs))
+			// slots of a fresh instance: 0 no such slot, -1 unbound, else the value; "error:<class>" when make-instance fails
+			slotsOf := func(initargs string) any {
+				o := h.Eval(s, fmt.Sprintf("(let ((i (make-instance '%s%s))) (list "+
+					"(if (slot-exists-p i 's) (if (slot-boundp i 's) (slot-value i 's) -1) 0) "+
+					"(if (slot-exists-p i 'u) (if (slot-boundp i 'u) (slot-value i 'u) -1) 0)))", real(c), initargs))
 				if !o.OK() {
 					return "error:" + o.Class
 				}
-				return slip.ObjectString(o.Val)
+				return h.Project(o.Val)["v"]
 			}
-			cell["slot"] = slotOf("")
-			cell["slotarg"] = slotOf(" :s 77")
+			cell["plain"] = slotsOf("")
+			cell["arg"] = slotsOf(" :s 77")
+			if o := h.Eval(s, fmt.Sprintf("(%s (make-instance '%s :s 77))", reader, real(c))); o.OK() {
+				cell["reader"] = slip.ObjectString(o.Val)
+			} else {
+				cell["reader"] = "error:" + o.Class
+			}
+			if o := h.Eval(s, fmt.Sprintf("(class-name (class-of (make-instance '%s)))", real(c))); o.OK() {
+				cell["classof"] = strip.Replace(slip.ObjectString(o.Val))
+			} else {
+				cell["classof"] = "error:" + o.Class
+			}
+			isa := []string{}
+			for _, d := range st.Classes {
+				if o := h.Eval(s, fmt.Sprintf("(typep (make-instance '%s) '%s)", real(c), real(d))); o.OK() && o.Val != nil {
+					isa = append(isa, d)
+				}
+			}
+			cell["isa"] = isa
 			obs[c] = cell
 		}
 		out.Emit(h.V{"t": st.ID, "defs": defs, "obs": obs})
